@@ -123,6 +123,11 @@ def check_matrix(repo, rep, uni, ad):
     def admitted(name, kinds):
         for o in ops[name]:
             ps = visible(o)
+            if ps and ps[-1].kind == 'vararg':
+                fixed = ps[:-1]
+                if len(kinds) < len(fixed):
+                    continue
+                ps = fixed + [ps[-1]] * (len(kinds) - len(fixed))
             if len(ps) != len(kinds):
                 continue
             if all(ad.admits(p.type, k) for p, k in zip(ps, kinds)):
@@ -299,7 +304,7 @@ def check_wrappers(repo, rep, ops, ad):
                 continue
             if isinstance(v, ast.Constant):
                 continue      # null table, R15c
-    rep.floor('plain operator wrappers', n, 35)
+    rep.floor('plain operator wrappers', n, 30)
 
 
 def check_int_division(repo, rep):
